@@ -352,6 +352,7 @@ pub fn run(ctx: &Ctx) -> ! {
          then the late messages are delivered. Oracle: mirror model of the retained set (R most recent inserted prior epochs as of the last write, plus epochs entered since): a late message must decrypt \
          iff its epoch is retained and the sender's leaf still carries the sender's signature key, then with the original sender index and payload; a vacated or reused leaf must reject; for identity-re-keyed \
          leaves rejection or correct attribution is accepted; outside the window it must reject. After a final write GroupStateStorage::epoch(id) is Some exactly for the modelled retained ids. \
+         With R = 3 (the providers' default) the stores are built without an explicit limit (Default::default()). \
          Non-trivial = a delivery at age R-1, R or R+1, or to a vacated / reused / re-keyed leaf; distinct by case value.",
     );
     ev.assume("X joined by Welcome before any late message was sent; epochs in which X was not a member are not modelled");
